@@ -22,6 +22,7 @@ from typing import (
 from django.template import Context, Template
 from django.template.base import NodeList, TextNode
 from django.template.exceptions import TemplateSyntaxError
+from django.template.loader_tags import BLOCK_CONTEXT_KEY, BlockContext
 from django.utils.safestring import SafeString, mark_safe
 
 from django_components.app_settings import ContextBehavior, app_settings
@@ -29,6 +30,7 @@ from django_components.context import _COMPONENT_CONTEXT_KEY, _INJECT_CONTEXT_KE
 from django_components.node import BaseNode
 from django_components.perfutil.component import component_context_cache
 from django_components.util.component_highlight import apply_component_highlight
+from django_components.util.context import _copy_block_context
 from django_components.util.exception import add_slot_to_error_message
 from django_components.util.logger import trace_component_msg
 from django_components.util.misc import get_index, get_last_index, is_identifier
@@ -911,6 +913,13 @@ def resolve_fills(
     if not nodelist:
         return slots
 
+    # The fills are part of the template in which the `{% component %}` tag is written. So any `{% block %}`
+    # inside them belongs to the `{% extends %}` family of THAT template. The fills are rendered later,
+    # from inside the component (and possibly other components), so we remember the block context now.
+    block_context: Optional[BlockContext] = context.render_context.get(BLOCK_CONTEXT_KEY)
+    if block_context is not None:
+        block_context = _copy_block_context(block_context)
+
     maybe_fills = _extract_fill_content(nodelist, context, component_name)
 
     # The content has no fills, so treat it as default slot, e.g.:
@@ -931,6 +940,7 @@ def resolve_fills(
                 nodelist=nodelist,
                 data_var=None,
                 default_var=None,
+                block_context=block_context,
             )
 
     # The content has fills
@@ -945,6 +955,7 @@ def resolve_fills(
                 data_var=fill.data_var,
                 default_var=fill.default_var,
                 extra_context=fill.extra_context,
+                block_context=block_context,
             )
 
     return slots
@@ -1017,6 +1028,7 @@ def _nodelist_to_slot_render_func(
     data_var: Optional[str] = None,
     default_var: Optional[str] = None,
     extra_context: Optional[Dict[str, Any]] = None,
+    block_context: Optional[BlockContext] = None,
 ) -> Slot:
     if data_var:
         if not data_var.isidentifier():
@@ -1103,7 +1115,12 @@ def _nodelist_to_slot_render_func(
 
         trace_component_msg("RENDER_NODELIST", component_name, component_id=None, slot_name=slot_name)
 
-        rendered = template.render(ctx)
+        if block_context is not None:
+            # See `resolve_fills()`
+            with ctx.render_context.push({BLOCK_CONTEXT_KEY: block_context}):
+                rendered = template.render(ctx)
+        else:
+            rendered = template.render(ctx)
 
         # After the rendering is done, remove the `extra_context` from the context stack
         ctx.dicts.pop(index_of_last_component_layer)
